@@ -114,11 +114,11 @@ package fasthttp
 //@ func hasHeaderValue results r
 //@   property C10
 //@   pure
-//@   ensures[first-or-last-close] sameSlice(value, strClose) && (closeFirst(s, len(s)) || closeLast(s, len(s))) ==> r
+//@   ensures[first-or-last-close] string(value) == "close" && (closeFirst(s, len(s)) || closeLast(s, len(s))) ==> r
 //@   loop 1:
 //@     invariant[suffix-rgn] rgn(vs.b) == rgn(s)
 //@     invariant[suffix-off] off(s) <= off(vs.b) && off(vs.b) + len(vs.b) == off(s) + len(s)
 //@     invariant[after-comma] off(vs.b) == off(s) || len(vs.b) == 0 || s[off(vs.b) - off(s) - 1] == ','
-//@     invariant[first-still-ahead] sameSlice(value, strClose) && closeFirst(s, len(s)) ==> off(vs.b) == off(s)
-//@     invariant[last-still-ahead] sameSlice(value, strClose) && closeLast(s, len(s)) ==> len(vs.b) >= 5
+//@     invariant[first-still-ahead] string(value) == "close" && closeFirst(s, len(s)) ==> off(vs.b) == off(s)
+//@     invariant[last-still-ahead] string(value) == "close" && closeLast(s, len(s)) ==> len(vs.b) >= 5
 //@     decreases len(vs.b)
